@@ -4,8 +4,9 @@
    (reactant-only, product-only, common atoms) as explicit inputs; orders_ok says they are permutations of the sets,
    so every theorem below holds for EVERY iteration order CPython may choose. *)
 From Coq Require Import ZArith List String Bool Permutation.
-From Model Require Import PyBase Graph Morgan Compose RxnSmiles CgrMorgan RxnCache.
-From Proofs Require Import ComposeProofs RxnComposeProofs RxnSmilesProofs RxnCxProofs RxnEqProofs RxnCacheProofs CgrMorganProofs CgrMorganOrderProofs.
+From Model Require Import PyBase PyHash Graph Morgan Writer Compose RxnSmiles CgrMorgan CgrWriter RxnCache.
+From Gen Require CgrTables.
+From Proofs Require Import WriterInvProofs ComposeProofs RxnComposeProofs RxnSmilesProofs RxnCxProofs RxnEqProofs RxnCacheProofs CgrMorganProofs CgrMorganOrderProofs CgrWriterProofs CgrTablesProofs.
 Import ListNotations.
 Open Scope Z_scope.
 
@@ -265,6 +266,46 @@ Theorem C15_cache_example :
 Proof. exact cache_example. Qed.
 Print Assumptions C15_cache_example.
 
+(* ---- str() of a condensed graph (Smiles._smiles with CGRSmiles' weights and token functions) ---- *)
+(* cgr_smiles_text h c w tb is the traversal model of C02 (Model.Writer: start atom, BFS labels, DFS with ring closures, flattening,
+   closure numbers, emission) run on the skeleton [enc h c] of the condensed graph -- adjacency + int(DynamicBond) as the tie-break
+   towards the parent -- with CGRSmiles._format_atom / _format_bond as token functions; w = weights, tb = tie-break priorities
+   standing for CPython's set iteration order.  cgr_str takes w from Morgan.atoms_order.  map_order s maps the written order. *)
+Theorem C15_wf_enc : forall h c, wf_cgr c = true -> wf_mol (enc h c) = true.
+Proof. exact wf_enc. Qed.
+Print Assumptions C15_wf_enc.
+
+(* for ANY injective weights and ANY tie-break priorities on the two sides: renumbering (remap()) keeps the text *)
+Theorem C15_cgr_smiles_text_ren : forall h c s w w' tb tb',
+  wf_cgr c = true -> (forall x y, s x = s y -> x = y) -> Morgan.inj_on (keys (c_atoms c)) w ->
+  (forall n, In n (keys (c_atoms c)) -> w' (s n) = w n) ->
+  cgr_smiles_text h (rename_cgr s c) w' tb' = map_order s (cgr_smiles_text h c w tb).
+Proof. exact cgr_smiles_text_ren. Qed.
+Print Assumptions C15_cgr_smiles_text_ren.
+
+(* str(cgr): when the Morgan ranks of the condensed graph are all different, the string does not depend on the numbering *)
+Theorem C15_cgr_str_invariant_discrete : forall h c s tb tb' l,
+  wf_cgr c = true -> (forall x y, s x = s y -> x = y) -> cgr_atoms_order h c = Ok l -> NoDup (map snd l) ->
+  cgr_str h (rename_cgr s c) tb' = map_order s (cgr_str h c tb).
+Proof. exact cgr_str_invariant_discrete. Qed.
+Print Assumptions C15_cgr_str_invariant_discrete.
+
+(* ... through compose: consistent renumbering of BOTH SIDES of a reaction, discrete Morgan ranks: the same str(r ^ p) *)
+Theorem C15_compose_str_invariant_discrete : forall h s r p o1 o2 o3 c l tb tb',
+  wf_mol r = true -> wf_mol p = true -> orders_ok r p o1 o2 o3 -> (forall x y, s x = s y -> x = y) ->
+  compose_ord o1 o2 o3 r p = Ok c -> cgr_atoms_order h c = Ok l -> NoDup (map snd l) ->
+  exists c', compose_ord (map s o1) (map s o2) (map s o3) (rename s r) (rename s p) = Ok c' /\
+             cgr_str h c' tb' = map_order s (cgr_str h c tb).
+Proof. exact compose_str_invariant_discrete. Qed.
+Print Assumptions C15_compose_str_invariant_discrete.
+
+Theorem C15_cgr_str_example :
+  exists c l, compose example_r example_p = Ok c /\ cgr_atoms_order hash_ztuple c = Ok l /\ NoDup (map snd l) /\
+    cgr_str hash_ztuple c (fun n => n) = Ok ("[O0>-]C[->=]C"%string, [3; 2; 1]) /\
+    cgr_str hash_ztuple (rename_cgr (fun n => 10 - n) c) (fun n => - n) = Ok ("[O0>-]C[->=]C"%string, [7; 8; 9]).
+Proof. exact cgr_str_example. Qed.
+Print Assumptions C15_cgr_str_example.
+
 (* ---- reaction string ---- *)
 (* any permutation of the molecules inside the roles gives the same string.  ncomp_det l: two molecules of l with the
    same SMILES have the same number of components (true of every molecule the writer produces, see
@@ -425,6 +466,31 @@ Theorem C15_rxn_eq_example :
   rxn_eq ([a; nacl; c], [], [a]) ([a; nacl; c'], [], [a]) = false.
 Proof. exact rxn_eq_example. Qed.
 Print Assumptions C15_rxn_eq_example.
+
+(* ---- the hand-written tables and patterns of the models == what tools/gen_cgr.py reads from the source on every run ---- *)
+(* dyn_order_str (all 35 keys, undefined elsewhere on the grid of orders), order_str, dyn_radical_str *)
+Theorem C15_src_dyn_tables_agree : dyn_tables_ok = true.
+Proof. exact dyn_tables_agree. Qed.
+Print Assumptions C15_src_dyn_tables_agree.
+
+(* charge_str and dyn_charge_str (the comprehension over range(-4, 5)^2 with (0, 0) -> '', undefined outside) *)
+Theorem C15_src_charge_tables_agree : charge_tables_ok = true.
+Proof. exact charge_tables_agree. Qed.
+Print Assumptions C15_src_charge_tables_agree.
+
+Theorem C15_src_organic_set_agrees : organic_ok = true.
+Proof. exact organic_set_agrees. Qed.
+Print Assumptions C15_src_organic_set_agrees.
+
+(* the regular expressions cx_fragments / cx_radicals are the ones the matchers implement *)
+Theorem C15_src_cx_regexes_agree : String.eqb CgrTables.src_cx_fragments modelled_cx_fragments && String.eqb CgrTables.src_cx_radicals modelled_cx_radicals = true.
+Proof. exact cx_regexes_agree. Qed.
+Print Assumptions C15_src_cx_regexes_agree.
+
+(* sort key and flags of __format__, __eq__ / __hash__, DynamicBond.__hash__ / __int__, DynamicElement.__hash__ as source text *)
+Theorem C15_src_fragments_agree : source_fragments_ok = true.
+Proof. exact source_fragments_agree. Qed.
+Print Assumptions C15_src_fragments_agree.
 
 (* ---- CGR SMILES tokens (finite, complete sweeps) ---- *)
 (* the bond token shows '>' exactly for a dynamic bond and determines (order, p_order) *)
